@@ -35,6 +35,8 @@ func exec(op string) vlib.Res {
 		return execLease(f)
 	case "chain":
 		return execChain(f)
+	case "retain":
+		return execRetain(f)
 	case "carrier":
 		ops := strings.Split(f[2], ",")
 		return vlib.Res{Impl: strings.Join(server.VerifC10CarrierScript(ops), ","), Oracle: "-", Tags: "nt"}
